@@ -33,6 +33,7 @@ def run(ctx, crate):
     rule_arm_buffer_fresh(ctx, crate)
     rule_brace_not_dropped(ctx, crate)
     rule_literal_in_order(ctx, crate)
+    rule_keys_matched_whole(ctx, crate)
     rule_chars_not_bytes(ctx, crate)
     # a declared `{key:width}` (any width up to u16::MAX) is rendered with exactly the declared width/alignment/truncate
     from .c12 import rule_placeholder_fields_forwarded
@@ -212,6 +213,34 @@ def rule_literal_in_order(ctx, crate, rule="R-LITERAL-IN-ORDER"):
                   "with a '{' pending (state MaybeOpen) the text read before the brace is still in the buffer, and the literal emitted here puts \"{\" in front of it "
                   "(or leaves it for later): \"a{ b\" renders as \"{a b\"", cfg)
     ctx.floor(rule, n, 1, cfg, "brace literals emitted under state MaybeOpen")
+
+
+def rule_keys_matched_whole(ctx, crate, rule="R-KEYS-MATCHED-WHOLE"):
+    """"unknown keys expanding to nothing": the renderer recognises a key only by comparing the *whole* key with a constant.
+    A prefix / suffix / substring test on the key (`key.starts_with("percent")`) makes every unknown key of that shape expand
+    to something. Checked in format_state: no str method that inspects part of a string is applied to a value derived from the
+    placeholder's key, and the key arms are equality tests against string constants (at least the 28 documented ones)."""
+    cfg = crate.config
+    b = K.find_one(ctx, crate, rule, r"style::ProgressStyle::format_state")
+    if not b:
+        return
+    partial = b.calls(r"core::str::<impl str>::(starts_with|ends_with|contains|find|rfind|strip_prefix|strip_suffix|split\w*|rsplit\w*|matches|match_indices|"
+                      r"trim_start_matches|trim_end_matches|trim_matches|get|len|is_empty|as_bytes|bytes|chars|char_indices|eq_ignore_ascii_case|to_lowercase|"
+                      r"to_uppercase|to_ascii_lowercase|to_ascii_uppercase)")
+    n = 0
+    for c in partial:
+        sl = b.slice_args(c, [0])
+        if not sl.has_field("key", "style::TemplatePart"):
+            continue
+        n += 1
+        ctx.bad(rule, "partial-test:%s" % K.meth(c.path), b.name, c.loc(),
+                "the placeholder's key is inspected with str::%s instead of being compared whole: unknown keys that pass this test expand to something "
+                "(`{percentage}` renders like `{percent}`)" % K.meth(c.path), cfg)
+    from .c11 import key_arms
+    arms = key_arms(b)
+    ctx.floor(rule, len(arms), 28, cfg, "key arms that compare the whole key with a constant")
+    ctx.check(n == 0, rule, "whole-key-only", b.name, K.fn_loc(b), "keys are recognised by whole-string equality only (%d arms)" % len(arms),
+              "%d partial test(s) on the placeholder key" % n, cfg)
 
 
 def rule_chars_not_bytes(ctx, crate, rule="R-PARSE-CHARS"):
